@@ -111,7 +111,7 @@ def main():
     ap = argparse.ArgumentParser()
     ap.add_argument('scenario'); ap.add_argument('--steps', type=int, default=60); ap.add_argument('--splits', default='')
     ap.add_argument('--batch', action='store_true'); ap.add_argument('--log-dir', default=''); ap.add_argument('--detail', action='store_true')
-    ap.add_argument('--end-step', type=int, default=0); ap.add_argument('--runner-step', action='store_true'); ap.add_argument('--stateful-gen', action='store_true')
+    ap.add_argument('--end-step', type=int, default=0); ap.add_argument('--end-offset', type=int, default=0); ap.add_argument('--runner-step', action='store_true'); ap.add_argument('--stateful-gen', action='store_true')
     a = ap.parse_args()
     with contextlib.redirect_stdout(_buf), contextlib.redirect_stderr(_buf):
         cfg = load_config(a.scenario)
@@ -124,7 +124,7 @@ def main():
             cfg = cfg.suppress_logging()
         if a.end_step:
             from nrel.hive.model.sim_time import SimTime
-            cfg = cfg._replace(sim=cfg.sim._replace(end_time=SimTime.build(int(cfg.sim.start_time) + a.end_step * cfg.sim.timestep_duration_seconds)))
+            cfg = cfg._replace(sim=cfg.sim._replace(end_time=SimTime.build(int(cfg.sim.start_time) + a.end_step * cfg.sim.timestep_duration_seconds - a.end_offset)))
         gens = None
         if a.stateful_gen:
             # a user-supplied instruction generator that carries state from step to step (the documented extension point):
